@@ -106,7 +106,7 @@ Theorem C06_quad_small_a : forall a b t0 t1, 0 <= t0 <= t1 ->
 Proof. exact quad_small_a_bound. Qed.
 
 (* the nearly straight branch of the repaired code (C06-quad-length-near-linear,
-   guard abs(a) < 1e-8 abs(b)): below the arc length by at most
+   guard abs(a) < 1e-6 abs(b)): below the arc length by at most
    (4/3) |a|^2/|b| (t1^3 - t0^3), i.e. relative error <= 4 (|a|/|b|)^2 *)
 Theorem C06_quad_near_linear : forall a b t0 t1,
   0 <= t0 <= t1 -> t1 <= 1 -> 4 * cabs NumTR a <= cabs NumTR b -> 0 < cabs NumTR b ->
